@@ -1,7 +1,8 @@
-# sourced by setup.sh / check.sh: offline Go environment for the harness module
+# sourced by setup.sh / check.sh: offline Go environment for the harness module.
+# VERIF_ROOT is wherever this file lives (so a snapshot of /verif works on its own files).
 export GOFLAGS=-mod=mod GOPROXY=off GOSUMDB=off GOTOOLCHAIN=local
 export GO=${GO:-go1.26}
 export VERIF_GOROOT=$($GO env GOROOT)
-export VERIF_ROOT=/verif
+export VERIF_ROOT=$(cd "$(dirname "${BASH_SOURCE[0]}")" && pwd)
 export VERIF_REPO=${VERIF_REPO:-/repo}
-export VERIF_WORK=${VERIF_WORK:-/verif/.work}
+export VERIF_WORK=${VERIF_WORK:-$VERIF_ROOT/.work}
